@@ -151,6 +151,12 @@ class Gen:
         for _ in range(r.randint(0, 3)):
             s["bind"][self.name()] = self.item(r.randint(1, 3))
         s["quote"] = r.random() < 0.1
+        s["send"] = r.random() < 0.15
+        if r.random() < 0.25:      # configuration fields no instruction is documented to consult per step
+            s["cfg"]["max_prog_points"] = r.choice([0, 1, 3, 5, 20, -1])
+            s["cfg"]["growth_cap"] = r.choice([0, 1, 2, 500])
+            s["cfg"]["push_limit"] = r.choice([-1, 0, 1, 5, 1000])
+            s["cfg"]["max_rand_points"] = r.choice([25, 3, 0, -5, 50])
         if r.random() < 0.5:   # rotated ring positions (invisible in the abstract state)
             s["rot"] = {"input": r.randint(0, 12), "output": r.randint(0, 4), "graph": r.choice([0, 0, 1, 99, 100, 150])}
         if r.random() < 0.3:
